@@ -32,7 +32,9 @@ EXC = {  # name in doctest source -> printed (qualified) name
     'ValueError': 'ValueError', 'KeyError': 'KeyError', 'MyErr': 'MyErr', 'QualErr': 'pkg.mod.QualErr', 'FalsyErr': 'FalsyErr'}
 MSGS = ['bad', '', 'a: b', 'l1\nl2', 'x ... y', 'it is 3.5',
         # a message that quotes another traceback
-        'worker failed:\nTraceback (most recent call last):\nKeyError: 1', 'see Traceback (most recent call last): above']
+        'worker failed:\nTraceback (most recent call last):\nKeyError: 1', 'see Traceback (most recent call last): above',
+        # a report with many fields (a want may elide every value)
+        'f1=10 f2=20 f3=30 f4=40 f5=50 f6=60 f7=70 f8=80 f9=90 f10=100 f11=110 f12=120 done']
 
 LINE_SYMS = [HDR, HDR + '  ', HDR + ' junk', 'Traceback (innermost last):', '  File "x", line 1, in f', 'Err: msg',
              'mod.Err: a: b', '...', '', '    word', '_x', '1x', '-x', 'Traceback (most recent call last)']
@@ -62,6 +64,10 @@ def want_forms(printed, msg, cls):
     }
     if printed.startswith('pkg.mod.'):
         forms['unqualified'] = HDR + '\n' + ll.replace('pkg.mod.', '', 1)
+    if msg.count('=') >= 10:
+        # every value elided: as many wildcards as fields
+        import re as _re
+        forms['manydots'] = HDR + '\n' + _re.sub(r'=\d+', '=...', ll)
     if len(msg) >= 3 and '\n' not in msg:
         cut = len(ll) - 2
         while cut > 1 and not ll[cut - 1].isalnum():
@@ -88,7 +94,7 @@ def expected(form, flags, cls, msg):
         return ('fail', 'gotwant')
     if form == 'unqualified':
         return ('pass', None) if ied else ('fail', 'gotwant')
-    if form == 'ellipsis':
+    if form in ('ellipsis', 'manydots'):
         if noell:
             return ('pass', None) if ied else ('fail', 'gotwant')
         return ('pass', None)
